@@ -13,7 +13,9 @@ DECIDED = ("on the loop-summarised allocator of every target (one abstract itera
            "hint advances by the page size on every back edge; and on the install roots: R11.4 no path refuses a placement the allocator "
            "accepted (the accepted distance interval is contained in what the entry-branch writer encodes), R11.6 the allocation precedes "
            "the entry write on every path; R11.8 on every returning install path the entry patch decodes to a transfer to the placed "
-           "trampoline for every address pair that reaches it (the decision of C01 R1.1 / C15 R15.3-4, entries only)")
+           "trampoline for every address pair that reaches it (the decision of C01 R1.1 / C15 R15.3-4, entries only); R11.9 no subtraction in "
+           "the allocator can underflow (the window's lower bound is clipped, e.g. saturating_sub, or guarded by a comparison): targets "
+           "below the search radius are searched from address zero")
 NOT_DECIDED = ("whether the kernel finds a free page (environment); a mapping left behind when a later step of the installation fails for an "
                "environmental reason (mprotect/VirtualProtect refusal)")
 
@@ -116,6 +118,13 @@ def allocator_obligations(ck, tm, R=lambda r: r):
             continue
         for f in tm.machines[(p, "havoc")].entered:
             ck.analysed_fn(tm.target, f)
+        # the search window is clipped, not wrapped, for targets near the bottom of the address space: no subtraction in the
+        # allocator can underflow (dev-profile MIR carries the overflow check; one that no dominating comparison makes redundant
+        # is an installation that panics - or, without overflow checks, scans from a wrapped address - for low functions)
+        subs = sorted({(n[1], n[2]) for n in tm.machines[(p, "havoc")].notes if n[0] == "unguarded-sub"})
+        if "@release" not in tm.target:
+            ck.ob(R("R11.9"), "%s/window-clipped-not-wrapped" % an, tm.target, not subs,
+                  "subtractions in the allocator that may underflow: %s" % (", ".join("%s in %s" % (e_, short(f_)) for e_, f_ in subs) or "none"))
         nret = nrej = ndiv = 0
         for v in vs:
             maps = [e for e in v.trace if e.kind == "ffi" and e.name in ALLOC_FFI]
